@@ -61,8 +61,9 @@ PROPS = {
         "harness": [
             e2e("invalid,code,mixed", 90, 3000, label="invalid-heavy"),
             {"sub": "commit-gate", "quick": {"cases": 3000}, "thorough": {"cases": 100000}, "timeout": 3000},
+            WITNESS,
         ],
-        "rule": "commit-gate: (nonce check on/off, transaction nonce, committed sender nonce) with both nonces drawn from {0..5, u64::MAX-1, u64::MAX}: the real OrderedCommitter::commit on a ParallelState whose sender has that nonce (Committed / NeedsSequentialFallback) vs stock revm's validation of the same transaction on the same state (accepted / NonceTooHigh / NonceTooLow / NonceOverflow) vs the Lean nonceGate and nonceInvalid; " + E2E_RULE,
+        "rule": "witness: a wrong-nonce (otherwise valid) transaction whose speculative attempt is held until the transaction before it is committed, so that it ENDS as the commit head (directed schedule attempt-ends-at-commit-head): the commit-time gate must still reject it; commit-gate: (nonce check on/off, transaction nonce, committed sender nonce) with both nonces drawn from {0..5, u64::MAX-1, u64::MAX}: the real OrderedCommitter::commit on a ParallelState whose sender has that nonce (Committed / NeedsSequentialFallback) vs stock revm's validation of the same transaction on the same state (accepted / NonceTooHigh / NonceTooLow / NonceOverflow) vs the Lean nonceGate and nonceInvalid; " + E2E_RULE,
         "trusted_base": E2E_TRUST,
         "modelled": ["OrderedCommitter::commit nonce gate", "execute_sequential_suffix classification", "error branch of execute_task for invalid transactions"],
         "assumptions": ["revm's transaction validation = nonce check AND nonce-independent rest (hypothesis hdecomp of gate_equiv; exercised by the differential runs)"],
